@@ -137,6 +137,35 @@ def replay_case(col, item):
     return rec
 
 
+def empty_selection(col, _):
+    """files=[] is a selection of nothing: no task may run, nothing may be returned."""
+    tree = build(3)
+    try:
+        reads = []
+        fs = tree.fileset(handler=make_handler(set(), reads))
+        calls = []
+        f = lambda info: calls.append(1) or 1
+        for label, fn in (("map", lambda: fs.map(f, files=[], worker_type="thread")),
+                          ("imap", lambda: list(fs.imap(f, files=[], worker_type="thread"))),
+                          ("collect", lambda: fs.collect(files=[])),
+                          ("icollect", lambda: list(fs.icollect(files=[]))),
+                          ("map-tuple", lambda: fs.map(f, files=(), worker_type="thread"))):
+            try:
+                got = fn()
+            except Exception as ex:
+                col.violation(label + "-raises-" + type(ex).__name__ + "-empty-files", {"abstract": {"files": []}, "observed": repr(ex)[:200]})
+                continue
+            col.count(1)
+            if list(got) != [] or calls or reads:
+                col.violation(label.split("-")[0] + "-processes-files-for-empty-selection",
+                              {"abstract": {"files": [], "n_files_in_fileset": 3}, "observed": {"returned": len(list(got)), "calls": len(calls), "reads": reads}})
+                calls.clear()
+                reads.clear()
+        col.nontrivial.add("empty-selection")
+    finally:
+        tree.remove()
+
+
 def align_case(col, seed):
     """align(): every matched secondary handed to each primary that needs it, read once, in match order."""
     import typhon.files.fileset as FM
@@ -334,6 +363,7 @@ def run(ctx):
         allfail += [(c, "collect", 1), (c, "icollect", 1), (c, "map", 1)]
     extra = []
     pmap_collect(ctx, allfail, extra)
+    pmap(ctx, empty_selection, [0], procs=1)
     pmap(ctx, align_case, [ctx.seed * 100 + i for i in range(40 if quick else 600)])
     pmap(ctx, process_pool_run, [ctx.seed * 7 + i for i in range(4 if quick else 40)], procs=1)
 
